@@ -327,11 +327,13 @@ class C14(Check):
     prop_id = "C14"
     rule = ("T: tables over <= 6 platform names (names chosen so that str order, case and length matter) as contributions in "
             "insertion order with repeated keys, counts from x.xx5-prone families (totals 8, 24, 40, 200), zero counts, up to 1e12; "
-            "each under >= 3 insertion orders x 5 hash seeds in fresh interpreters; exhaustive small block. P: code bases of 2-7 "
-            "files in nested directories with #ifdef/#ifndef/#elif/#else structure, duplicate and header files, 1-4 platforms with "
-            "-D sets, each analysed by codebasin, cbi-tree and cbi-cov under 4 schedules. Non-trivial: T - at least two rows of "
-            "equal size and at least two platforms, or a distance whose per-row float sum is order dependent; P - at least two "
-            "platforms, two rows of equal size, and files in more than one directory")
+            "each under >= 3 insertion orders x 5 hash seeds in fresh interpreters; exhaustive small block; an edge stream (empty / "
+            "all-zero tables, repeated names, punctuation, blanks, non-ASCII). P: code bases of 2-7 files in nested directories with "
+            "#ifdef/#ifndef/#elif/#else structure, duplicate files, headers reached through (nested) #include, 1-4 platforms with "
+            "-D sets, each analysed by codebasin, cbi-tree and cbi-cov in a fresh interpreter under 4 schedules. F: the same code "
+            "bases through finder.find + get_setmap in process, 4 runs with permuted configuration and shuffled scandir, observing "
+            "the dict with its insertion order and every node's platform set. Non-trivial: T - at least two platforms and two rows "
+            "of equal size; P - additionally files in more than one directory; F - two platforms, three rows, two directories")
     assumptions = ["which nodes a compile command reaches is C01/C04's subject: the model takes it as input (computed by an independent stack-machine oracle on #ifdef/#ifndef/#elif defined/#else/#endif)",
                    "no member of the code base is a symbolic link; counts stay below 2^53",
                    "runtime schedules (hash seeds, scandir order, platform-table order) are SAMPLED; Coq proves invariance of the model under every permutation",
